@@ -4,7 +4,7 @@
    reference definitions (is_number, is_unit, encode_ref, unescape, trim_ref, fold_eq, ...) next to
    the proofs.  [is_byte c] is 0 <= c < 256. *)
 From Verif Require Import Common.Base Helpers.Model Helpers.Lists Helpers.Proofs Helpers.NumberProofs
-  Helpers.UrlProofs Helpers.HashProofs.
+  Helpers.UrlProofs Helpers.HashProofs Helpers.Base64Proofs Helpers.DataURIProofs Helpers.MediatypeProofs.
 From Verif Require Gen.Tables.
 
 (* ---- Number, Dimension -------------------------------------------------------------------------- *)
@@ -89,6 +89,74 @@ Theorem datauri_table_plus_refuted :
     exists r, encode_url b Tables.datauri_encoding_table = Ok r /\ decode_url r <> Ok b.
 Proof. exact datauri_table_plus_refuted_proof. Qed.
 Print Assumptions datauri_table_plus_refuted.
+
+(* ---- DataURI ------------------------------------------------------------------------------------------- *)
+(* The model of base64.StdEncoding.Decode inverts the RFC 4648 encoder on arbitrary bytes. *)
+Theorem base64_roundtrip : forall d, Forall is_byte d -> b64_decode (b64_encode d) = Some d.
+Proof. exact b64_roundtrip_proof. Qed.
+Print Assumptions base64_roundtrip.
+
+(* For arbitrary bytes d and a header p ++ last made of a parameter list ((segment delimiter)*,
+   delimiters ';' and '=', segments free of = ; , and not reading "base64" in front of a ';') and a
+   last segment that does not read "base64": DataURI returns exactly d, both for ";base64," +
+   base64(d) and for "," + percent-encoding of d with a table that marks '%' and '+'; the media type
+   is the header with every segment trimmed (text/plain when that is empty or starts with ';').
+   Stated for ANY base64 decoder that inverts its encoder (Section variable, no axiom). *)
+Theorem datauri_roundtrip :
+  forall (b64dec : list Z -> option (list Z)) (b64enc : list Z -> list Z),
+    (forall d, Forall is_byte d -> b64dec (b64enc d) = Some d) ->
+    forall p np last d t, params p np -> plain last -> trim_ref last <> base64_bytes -> Forall is_byte d ->
+      let mt := mt_default (np ++ trim_ref last) in
+      data_uri b64dec (data_scheme ++ (p ++ last) ++ 59 :: base64_bytes ++ 44 :: b64enc d) = Ok (DOk mt d) /\
+      (tbl t 37 = Some true -> tbl t 43 = Some true ->
+       data_uri b64dec (data_scheme ++ (p ++ last) ++ 44 :: encode_ref t d) = Ok (DOk mt d)).
+Proof. exact datauri_roundtrip_proof. Qed.
+Print Assumptions datauri_roundtrip.
+
+(* the instance that runs in the correspondence check: the executable base64 model and the
+   generated URL table *)
+Theorem datauri_roundtrip_std :
+  forall p np last d, params p np -> plain last -> trim_ref last <> base64_bytes -> Forall is_byte d ->
+    let mt := mt_default (np ++ trim_ref last) in
+    data_uri b64_decode (data_scheme ++ (p ++ last) ++ 59 :: base64_bytes ++ 44 :: b64_encode d) = Ok (DOk mt d) /\
+    data_uri b64_decode (data_scheme ++ (p ++ last) ++ 44 :: encode_ref Tables.url_encoding_table d) = Ok (DOk mt d).
+Proof. exact datauri_roundtrip_std_proof. Qed.
+Print Assumptions datauri_roundtrip_std.
+
+(* DataURI never panics on arbitrary bytes (whatever the base64 decoder does), and it returns
+   ErrBadDataURI exactly when the argument is not "data:" followed by something containing a comma;
+   otherwise the result is a payload or the base64 decoder's error. *)
+Theorem datauri_bad_iff :
+  forall b64dec b, Forall is_byte b ->
+    exists r, data_uri b64dec b = Ok r /\
+      (r = DBad <-> ~ (5 < len b /\ firstz 5 b = data_scheme /\ In 44 (skipz 5 b))).
+Proof. exact datauri_total_proof. Qed.
+Print Assumptions datauri_bad_iff.
+
+(* The two deviations from the property text that the Go oracle reports as findings, on the model:
+   a literal '+' (which DataURIEncodingTable leaves alone) becomes a space; a parameter VALUE that
+   reads "base64" is taken for the ;base64 marker. *)
+Theorem datauri_exact_payload_refuted :
+  data_uri b64_decode (data_scheme ++ [44; 97; 43; 98]) = Ok (DOk text_mime [97; 32; 98]) /\
+  data_uri b64_decode (data_scheme ++ [120; 47; 121; 59; 97; 61] ++ base64_bytes ++ [44; 37; 48; 55]) = Ok DB64Err.
+Proof. exact datauri_findings_proof. Qed.
+Print Assumptions datauri_exact_payload_refuted.
+
+(* ---- Mediatype ----------------------------------------------------------------------------------------- *)
+(* For all inputs: no panic, the fuel of the PARAM loop is never exhausted, the mimetype is the
+   sub-slice [off, off+mlen) behind the leading spaces, a non-nil map has at least one entry and
+   every key and value is a sub-slice of the argument.  (Agreement with mime.ParseMediaType on
+   well-formed unquoted values is checked by the Go oracle only.) *)
+Theorem mediatype_agrees_partial :
+  forall b, exists off mlen ps,
+    mediatype b = Ok (off, mlen, ps) /\
+    off = run is_sp b /\ 0 <= mlen /\ off + mlen <= len b /\
+    match ps with
+    | None => True
+    | Some l => l <> [] /\ Forall (kv_ok (skipz off b)) l
+    end.
+Proof. exact mediatype_no_panic_proof. Qed.
+Print Assumptions mediatype_agrees_partial.
 
 (* ---- hash tables -------------------------------------------------------------------------------------- *)
 (* Both generated tables are perfect: every Hash constant has a non-empty text and ToHash maps
